@@ -118,6 +118,8 @@ var (
 	tSHA384  = unhx("07533effd09fc94885f18ad56c701e01")
 	tEXT     = unhx("ed8c2e45ffdf8c4bae015118862e682c")
 	tUnknown = []byte{0xde, 0xad, 0xbe, 0xef, 1, 2, 3, 4, 5, 6, 7, 8, 9, 10, 11, 12}
+	// a second GUID that is no signature type: the X.509 type with its last byte changed
+	tUnknown2 = unhx("a159c0a5e494a74a87b5ab155c2bf073")
 )
 
 // deterministic-length certificates (ed25519: fixed-size keys and signatures)
